@@ -46,6 +46,8 @@ def run_standard(mod, ctx):
             tieb = tieb + [("transcription of " + k, "the body of this function differs from the text its Lean model was transcribed from (pinned %s, now %s): "
                             "the limb-arithmetic theorems no longer cover the code that exists; re-transcribe and re-prove, then update tools/fingerprints.json" % (old, new))]
         ctx.log("Tie B: limb-code source fingerprints, %d changed" % len(ch))
+    if hasattr(mod, "tie_b"):      # property-specific translator tie (e.g. C11: MiniC functions regenerated from the source)
+        tieb = tieb + mod.tie_b(ctx)
     rng = random.Random(ctx.seed)
     cfgs = mod.configs(ctx.tier)
     if hasattr(mod, "gen"):
